@@ -137,12 +137,10 @@ Definition zero_eater_ops : ops := mkOps
   (fun s _ => match s_buf s with [] => (s, [], false, CbOk) | b => (with_buf s [], [MBatch b], false, CbOk) end)
   (fun _ => ([], CbOk)).
 
-(* ParserPlanner (json / logfmt): error entries pass, a line that does not parse fails the request *)
+(* ParserPlanner (json / logfmt): error entries pass; a line that does not decode keeps its stream labels and stays
+   in the result (since b209640; before, it failed the request: e_json e = false gave CbErr) *)
 Definition parser_ops : ops := mkOps
-  (fun s e => match e_err e with
-              | EOk => (s, e, if e_json e then CbOk else CbErr)
-              | _ => (s, e, CbOk)
-              end)
+  (fun s e => (s, e, CbOk))
   (fun s es => (s, [MBatch es], false, CbOk))
   (fun _ => ([], CbOk)).
 
